@@ -31,7 +31,10 @@ _REGISTER_TIME = 225  # ms
 _LISTENER_TIME = 200  # ms
 _BROWSER_TIME = 10000  # ms
 _DUPLICATE_PACKET_SUPPRESSION_INTERVAL = 1000  # ms
-_DUPLICATE_PACKET_BACK_TO_BACK_INTERVAL = 50  # ms # a copy this close is a link-layer duplicate, not a retransmission
+# A copy this close is a link-layer duplicate, not a retransmission: goodbyes are
+# sent _UNREGISTER_TIME apart and a link that delays datagrams by up to 100 ms
+# brings two of them as close as 25 ms
+_DUPLICATE_PACKET_BACK_TO_BACK_INTERVAL = 20  # ms
 _DUPLICATE_QUESTION_INTERVAL = 999  # ms # Must be 1ms less than _DUPLICATE_PACKET_SUPPRESSION_INTERVAL
 _CACHE_CLEANUP_INTERVAL = 10  # s
 _LOADED_SYSTEM_TIMEOUT = 10  # s
